@@ -171,15 +171,27 @@ def drawdowns(ctx):
     ctx.require(T.teq(dd, exp), 'C17.S2', 'drawdown = (running maximum - value) / running maximum', fn.site(), fmt(dd)[:200], key='C17.S2|drawdown')
     ctx.require(mx in (C('MAX', dd), M_('max', dd)), 'C17.S2', 'maximum drawdown = max of the drawdown series', fn.site(), fmt(mx)[:160], key='C17.S2|max')
     # duration: longest run of the non-zero indicator of the drawdown series
-    ind = [s for s in T.subterms(dur) if s[0] == 'call' and s[1] == ('ext', 'WHERE')]
+    def is_indicator(w):
+        """1 where the drawdown is non-zero, 0 where it is zero: np.where(dd == 0, 0, 1), np.where(dd != 0, 1, 0), (dd != 0)[.astype(int)], (dd > 0)..."""
+        while w[0] == 'call' and w[1] in (('meth', 'astype'), ('ext', 'INT')) and w[2]:
+            w = w[2][0]
+        nz = (('not', ('cmp', '==', ZERO, dd)), ('not', ('cmp', '==', dd, ZERO)), ('not', ('cmp', '<=', dd, ZERO)), ('cmp', '<', ZERO, dd))
+        if w in nz:
+            return True
+        if w[0] == 'call' and w[1] == ('ext', 'WHERE') and len(w[2]) == 3:
+            cond = w[2][0]
+            return (cond in (('cmp', '==', ZERO, dd), ('cmp', '==', dd, ZERO)) and w[2][1] == ZERO and w[2][2] == num(1)) or \
+                (cond in nz and w[2][1] == num(1) and w[2][2] == ZERO)
+        return False
+    grp0 = [s for s in T.subterms(dur) if s[0] == 'call' and s[1] == ('ext', 'itertools.groupby') and len(s[2]) == 1]
+    ind = [g_[2][0] for g_ in grp0]
+    if not ind:
+        ind = [s for s in T.subterms(dur) if s[0] == 'call' and s[1] == ('ext', 'WHERE')]
     if not ind:
         ind = [w.value for w in heap_writes(p, into_loops=False) if w.value is not None and w.value[0] == 'call' and w.value[1] == ('ext', 'WHERE')]
     okd = False
     if len(ind) >= 1:
-        w = ind[0]
-        cond = w[2][0] if w[2] else None
-        okd = len(w[2]) == 3 and cond in (('cmp', '==', ZERO, dd), ('cmp', '==', dd, ZERO)) and w[2][1] == ZERO and w[2][2] == num(1)
-        okd = okd or (len(w[2]) == 3 and cond in (('not', ('cmp', '==', ZERO, dd)), ('not', ('cmp', '<=', dd, ZERO)), ('cmp', '<', ZERO, dd)) and w[2][1] == num(1) and w[2][2] == ZERO)
+        okd = is_indicator(ind[0])
     ctx.require(okd, 'C17.S2', 'the under-water indicator is "drawdown != 0" of that same series', fn.site(), fmt(ind[0])[:200] if ind else fmt(dur)[:200], key='C17.S2|indicator')
     grp = [s for s in T.subterms(dur) if s[0] == 'call' and s[1] == ('ext', 'itertools.groupby')]
     if grp or (dur[0] == 'call' and dur[1] == ('ext', 'MAX')):
@@ -290,7 +302,13 @@ def reporters(ctx):
     derivs = {}
     for qn, curve, rname, cname in (('JSONStatistics._calculate_returns', 'curve', 'Returns', 'CumReturns'), ('TearsheetStatistics.get_results', 'equity_df', 'returns', 'cum_returns')):
         fn = ctx.fn(qn)
-        ps = summarise(ctx, qn, policy=no_inline)
+        def helpers(caller, callee, depth):
+            # shared derivation helpers of the statistics package are read through; the tabled metric functions stay calls
+            if depth <= 3 and callee.cls is not None and default_policy(caller, callee, depth):
+                return True
+            return depth <= 3 and callee.cls is None and callee.path.startswith('qstrader/statistics/') and \
+                callee.name not in ('create_drawdowns', 'create_cagr', 'create_sharpe_ratio', 'create_sortino_ratio', 'aggregate_returns')
+        ps = summarise(ctx, qn, policy=helpers)
         for p in normal(ps):
             c = V(curve)
             eqc = ('sub', c, ('str', 'Equity'))
